@@ -124,10 +124,17 @@ def evaluate(ctx, rng, tier, focus, budget, broken):
         res = (o >> 52) & 15
         other = gen.rand_cell(rng, res=(res + 1) % 16)
         ops3.append(f"dist {gen.hx(o)} {gen.hx(other)}"); exp3.append("err 12")
+        # every other resolution (descendants / ancestors of the origin and unrelated cells): E_RES_MISMATCH
+        for r2 in range(16):
+            if r2 != res:
+                rel = gen.mkcell(r2, (o >> 45) & 127, gen.fields(o)[2][:res] + [0] * (r2 - res)) if r2 > res else gen.parent(o, r2)
+                for other in (rel, gen.rand_cell(rng, res=r2, bc=(o >> 45) & 127)):
+                    ops3.append(f"dist {gen.hx(o)} {gen.hx(other)}"); exp3.append("err 12")
+                    ops3.append(f"lij {gen.hx(o)} {gen.hx(other)} 0"); exp3.append("err 12")
     out3 = ctx.c(ops3, tag="eval3")
     for o_, e, a in zip(ops3, exp3, out3):
-        if a != e:
-            viol_.append(viol("gridDistance self / resolution-mismatch clause", o_, e, a))
+        if a != e and not (e == "err 12" and o_.startswith("lij") and not ok(a)):
+            viol_.append(viol("gridDistance / cellToLocalIj self / resolution-mismatch clause", o_, e, a))
     ops4 = []
     for o in origins:
         for _ in range(20):
